@@ -51,7 +51,7 @@ def REQUIRED(tier):
 def _required(tier):
     return ["ops:seek_set", "ops:seek_cur", "ops:cread", "ops:creadinto", "position_checks", "content_checks",
             "regime:read_spans_two_boundaries", "regime:seek_back_over_boundary", "regime:creadinto_hits_end",
-            "regime:cread_past_end_raises", "regime:position_exactly_at_boundary", "read_block:in_range", "read_block:rejected", "regime:member_file_with_trailing_partial_sample"]
+            "regime:cread_past_end_raises", "regime:position_exactly_at_boundary", "read_block:in_range", "read_block:rejected", "regime:member_file_with_trailing_partial_sample", "regime:file_listed_twice", "regime:relative_names_then_chdir"]
 
 
 def EXHAUSTIVE(tier):
@@ -73,7 +73,7 @@ def cases(tier, seed):
         nfiles = int(rng.integers(1, 4))
         split = [int(rng.integers(1, 20)) for _ in range(nfiles)]
         yield {"kind": "random", "nbits": nbits, "nchans": nch, "split": split, "hseed": int(seed) * 100003 + k, "n": 8, "len": hlen,
-               "contig": bool(k % 5 != 4) or tier == "quick", "ragged": k % 3 == 2}
+               "contig": bool(k % 5 != 4) or tier == "quick", "ragged": k % 3 == 2, "dup": k % 7 == 5, "relchdir": k % 7 == 3}
     for nbits in DEPTHS:
         for split in ([9], [4, 5], [2, 3, 4]):
             yield {"kind": "read_block", "nbits": nbits, "nchans": sigfile.legal_nchans(nbits, 2), "split": split, "dseed": int(seed)}
@@ -317,36 +317,70 @@ def run_case(case, ctx):
         paths, model, bounds, X = _mk_stream(ctx, nbits, nch, split, case["hseed"], case["contig"], case.get("ragged", False))
         if case.get("ragged") and len(model) != len(sigfile.encode_data(X, nbits)):
             ctx.count("regime:member_file_with_trailing_partial_sample")
-        hdr, rd0 = _open_reader(paths, nbits, case["contig"])
+        contig = case["contig"]
+        if case.get("dup") and len(paths) >= 1:
+            # the same file listed more than once is still a list of files: the stream is their data sections in list order
+            order = [[0, 0], [0, 1, 0], [1, 0, 0]][case["hseed"] % 3] if len(paths) >= 2 else [0, 0]
+            paths = [paths[i] for i in order]
+            parts = [sigfile.parse_file(p)[2] for p in paths]
+            model = b"".join(parts)
+            bounds = np.cumsum([len(q) for q in parts])[:-1].tolist()
+            contig = False
+            ctx.count("regime:file_listed_twice")
+        cwd0 = os.getcwd()
+        if case.get("relchdir"):
+            # opened by relative names; afterwards the process moves to a directory holding same-named files with other bytes
+            ddir = os.path.dirname(paths[0])
+            decoy = os.path.join(ddir, "elsewhere")
+            os.makedirs(decoy, exist_ok=True)
+            for pth in paths:
+                with open(pth, "rb") as fh:
+                    raw = fh.read()
+                hl = sigfile.parse_file(pth)[1]
+                with open(os.path.join(decoy, os.path.basename(pth)), "wb") as fh:
+                    fh.write(raw[:hl] + bytes((b ^ 0x55) for b in raw[hl:]))
+            os.chdir(ddir)
+            ctx.count("regime:relative_names_then_chdir")
+            try:
+                hdr, rd0 = _open_reader([os.path.basename(pth) for pth in paths], nbits, contig)
+            finally:
+                os.chdir(decoy)
+        else:
+            hdr, rd0 = _open_reader(paths, nbits, contig)
         rd0.close()
         T = len(model)
         isz = {16: 2, 32: 4}.get(nbits, 1)
-        for h in range(case["n"]):
-            rng = np.random.default_rng([case["hseed"], h])
-            ops, pos = [], 0
-            for _ in range(case["len"]):
-                r = rng.random()
-                if r < 0.2:
-                    o = int(rng.integers(0, T // isz)) * isz if rng.random() < 0.7 or not bounds else int(rng.choice(bounds))
-                    ops.append(("ss", o)); pos = o
-                elif r < 0.4:
-                    tgt = int(rng.integers(0, T // isz)) * isz if rng.random() < 0.7 or not bounds else int(rng.choice(bounds))
-                    ops.append(("sc", tgt - pos)); pos = tgt
-                elif r < 0.7:
-                    room = (T - pos) // isz
-                    n = int(rng.integers(0, room + 1)) if rng.random() < 0.9 else room + 1
-                    ops.append(("cr", n))
-                    if pos + n * isz > T:
-                        break
-                    pos += n * isz
-                else:
-                    n = int(rng.integers(0, (T - pos) // isz + 3)) * isz
-                    ops.append(("ci", n)); pos += min(n, T - pos)
-            rec_case = {"kind": "history", "nbits": nbits, "nchans": nch, "split": split, "dseed": case["hseed"],
-                        "contig": case["contig"], "ragged": case.get("ragged", False), "ops": [list(o) for o in ops]}
-            ok = run_history(ctx, hdr.stream_info, nbits, model, bounds, ops, rec_case)
-            if h == 0 and ok:
-                ctx.sample({"nbits": nbits, "nchans": nch, "samples_per_file": split, "ops_head": [list(o) for o in ops[:10]], "n_ops": len(ops)})
+        try:
+            for h in ([case["only"]] if "only" in case else range(case["n"])):
+                rng = np.random.default_rng([case["hseed"], h])
+                ops, pos = [], 0
+                for _ in range(case["len"]):
+                    r = rng.random()
+                    if r < 0.2:
+                        o = int(rng.integers(0, T // isz)) * isz if rng.random() < 0.7 or not bounds else int(rng.choice(bounds))
+                        ops.append(("ss", o)); pos = o
+                    elif r < 0.4:
+                        tgt = int(rng.integers(0, T // isz)) * isz if rng.random() < 0.7 or not bounds else int(rng.choice(bounds))
+                        ops.append(("sc", tgt - pos)); pos = tgt
+                    elif r < 0.7:
+                        room = (T - pos) // isz
+                        n = int(rng.integers(0, room + 1)) if rng.random() < 0.9 else room + 1
+                        ops.append(("cr", n))
+                        if pos + n * isz > T:
+                            break
+                        pos += n * isz
+                    else:
+                        n = int(rng.integers(0, (T - pos) // isz + 3)) * isz
+                        ops.append(("ci", n)); pos += min(n, T - pos)
+                rec_case = {"kind": "history", "nbits": nbits, "nchans": nch, "split": split, "dseed": case["hseed"],
+                            "contig": case["contig"], "ragged": case.get("ragged", False), "ops": [list(o) for o in ops]}
+                if case.get("dup") or case.get("relchdir"):
+                    rec_case = dict(case, only=h)      # replay goes through this branch again (the variant is part of the case)
+                ok = run_history(ctx, hdr.stream_info, nbits, model, bounds, ops, rec_case)
+                if h == 0 and ok:
+                    ctx.sample({"nbits": nbits, "nchans": nch, "samples_per_file": split, "ops_head": [list(o) for o in ops[:10]], "n_ops": len(ops)})
+        finally:
+            os.chdir(cwd0)
         return
     if kind == "read_block":
         from sigpyproc.readers import FilReader
